@@ -241,16 +241,17 @@ def run(chk: Check) -> None:
             r4.violation("frame returned only when the whole frame is buffered", ffb.loc(rt.stmt), "a frame can be returned before message_size + HEADER_SIZE bytes have arrived (truncated message)")
     rb = ix.func("mypy.ipc.IPCBase.read_bytes")
     rb_rets = [n for n in ast.walk(rb.node) if isinstance(n, ast.Return) and n.value is not None]
-    srcs = set()
-    for n in ast.walk(rb.node):
-        if isinstance(n, ast.Assign) and any(isinstance(t, ast.Name) and t.id == "bdata" for t in n.targets):
-            srcs.add(norm(n.value))
     for rt in rb_rets:
         v = norm(rt.value)
-        if v == "b''" or (v == "bdata" and srcs == {"self.frame_from_buffer()"}):
-            r4.ok(f"read_bytes returns {v}", rb.loc(rt))
+        srcs = set()
+        if isinstance(rt.value, ast.Name):
+            for n in ast.walk(rb.node):
+                if isinstance(n, ast.Assign) and any(isinstance(t, ast.Name) and t.id == rt.value.id for t in n.targets):
+                    srcs.add(norm(n.value))
+        if v in ("b''", "self.frame_from_buffer()") or (isinstance(rt.value, ast.Name) and srcs == {"self.frame_from_buffer()"}):
+            r4.ok("read_bytes returns " + ("b''" if v == "b''" else "what frame_from_buffer produced"), rb.loc(rt))
         else:
-            r4.violation(f"read_bytes returns {v}", rb.loc(rt), f"read_bytes returns something other than a complete frame or b'' (bdata sources: {sorted(srcs)})")
+            r4.violation(f"read_bytes returns {v}", rb.loc(rt), f"read_bytes returns something other than a complete frame or b'' (sources of `{v}`: {sorted(srcs)})")
     wb = ix.func("mypy.ipc.IPCBase.write_bytes")
     packs = [n for n in ast.walk(wb.node) if isinstance(n, ast.BinOp) and isinstance(n.op, ast.Add) and isinstance(n.left, ast.Call) and norm(n.left.func) == "struct.pack"]
     okp = [p for p in packs if len(p.left.args) == 2 and isinstance(p.left.args[0], ast.Constant) and p.left.args[0].value == "!L" and norm(p.left.args[1]) == f"len({norm(p.right)})"]
